@@ -1,4 +1,3 @@
-import functools as ft
 import inspect
 import json
 from typing import Any, Callable, Dict, Iterable, List, Optional
@@ -59,10 +58,11 @@ class PydanticValidator(base.BaseValidator):
 
         return {attr: getattr(obj, attr) for attr in obj.model_fields} if self._coerce else bound_params.arguments
 
-    @ft.lru_cache(maxsize=None)
     def build_validation_schema(self, signature: inspect.Signature) -> Dict[str, Any]:
         """
         Builds pydantic model based validation schema from method signature.
+        Not memoised: signatures whose defaults compare equal (``1``, ``True``, ``1.0``) are equal and hash alike,
+        a cache keyed by the signature hands one method the defaults of another.
 
         :param signature: method signature to build schema for
         :returns: validation schema
